@@ -131,6 +131,28 @@ Proof. intros Hwf. revert lj rs cs. induction li as [|i li IH]; intros lj rs cs 
   pose proof (col_of_spec e j Hwf) as Hc. destruct (col_of e j) as [er|v]; [congruence|]. destruct Hc as (j'' & _ & ->).
   rewrite map_length, seq_length, Ei. destruct (IH lj rs' cs' eq_refl Ec) as (r & ->). eauto. Qed.
 
+Lemma bcast_same (li lj : list Z) : length li = length lj -> bcast li lj = Some (li, lj).
+Proof. intros H. unfold bcast. rewrite H, Nat.eqb_refl. reflexivity. Qed.
+Lemma bcast_len (li lj a b : list Z) : bcast li lj = Some (a, b) -> length a = length b.
+Proof. unfold bcast. destruct (Nat.eqb_spec (length li) (length lj)) as [E|E].
+  - intros H; injection H as <- <-. exact E.
+  - destruct li as [|x [|x' li]]; destruct lj as [|y [|y' lj]]; intros H; try discriminate H; injection H as <- <-;
+      cbn [length map]; rewrite ?map_length; reflexivity. Qed.
+Lemma list_pairs_spec fl (e : op) li lj : wf e = true -> f_list_dotA fl = false -> length li = length lj ->
+  (forall er, list_pairs fl e li lj <> Err er) ->
+  exists rs cs, norms li (fst (shape e)) = Some rs /\ norms lj (snd (shape e)) = Some cs /\
+                list_pairs fl e li lj = Vec (map (fun p => den e (fst p) (snd p)) (combine rs cs)).
+Proof. intros Hwf Hd Hsl Hok. unfold list_pairs, list_target in *. rewrite Hd in *.
+  destruct li as [|i li].
+  { destruct lj; [|discriminate Hsl]. destruct (f_list_empty_err fl); [exfalso; eapply Hok; reflexivity|]. exists [], []. repeat split. }
+  destruct lj as [|j lj]; [discriminate Hsl|].
+  pose proof (list_go_spec e (i :: li) (j :: lj) Hwf Hsl) as Hg. destruct (list_go e (i :: li) (j :: lj)) as [er|r]; [exfalso; eapply Hok; reflexivity|].
+  destruct Hg as (rs & cs & E1 & E2 & ->). exists rs, cs. repeat split; assumption. Qed.
+Lemma list_pairs_total fl (e : op) li lj rs cs : wf e = true -> f_list_dotA fl = false -> f_list_empty_err fl = false ->
+  norms li (fst (shape e)) = Some rs -> norms lj (snd (shape e)) = Some cs -> forall er, list_pairs fl e li lj <> Err er.
+Proof. intros Hwf Hd Hemp E1 E2 er. unfold list_pairs, list_target. rewrite Hd, Hemp.
+  destruct (list_go_total e li lj rs cs Hwf E1 E2) as (r & Hr). rewrite Hr. destruct li, lj; discriminate. Qed.
+
 (* ---------- what "the same indexing expression applied to the represented matrix" means for a result *)
 Definition res_matches (e : op) (r : res) (s : sres) : Prop :=
   match r, s with
@@ -156,7 +178,7 @@ Proof. intros _ _. unfold sliced. destruct (f_arr_cpu fl && (is_arr a || is_arr 
   exists rs, cs. eauto using axis_sel_spec. Qed.
 
 (* ===== getitem_den: whenever the model returns a value, it is the same indexing expression applied to den e ===== *)
-Theorem getitem_den fl (e : op) q : wf e = true -> sym_ok fl e -> listed q = true -> same_len q ->
+Theorem getitem_den fl (e : op) q : wf e = true -> sym_ok fl e -> listed q = true -> (f_list_zip fl = false \/ same_len q) ->
   (f_list_dotA fl = false \/ is_list_pair q = false) ->
   (forall er, getitem fl e q <> Err er) ->
   exists s, spec_index (den e) (fst (shape e)) (snd (shape e)) q = Some s /\ res_matches e (getitem fl e q) s.
@@ -204,23 +226,26 @@ Proof.
     + destruct a as [i|sa|la|la]; [|discriminate Hl|discriminate Hl|].
       * cbn [getitem spec_index] in *. apply Hrow; [discriminate|auto].
       * (* list pair *) cbn [getitem spec_index same_len is_list_pair] in *. destruct HdotA as [Hd|Hd]; [|discriminate Hd].
-        rewrite Hsl, Nat.eqb_refl. unfold list_case in *. unfold list_target in *. rewrite Hd in *.
-        destruct la as [|i la].
-        { destruct lb; [|discriminate Hsl]. destruct (f_list_empty_err fl); [exfalso; eapply Hok; reflexivity|]. cbn [norms combine map]. eexists; split; reflexivity. }
-        destruct lb as [|j lb]; [discriminate Hsl|].
-        pose proof (list_go_spec e (i :: la) (j :: lb) Hwf Hsl) as Hg. destruct (list_go e (i :: la) (j :: lb)) as [er|r]; [exfalso; eapply Hok; reflexivity|].
-        destruct Hg as (rs & cs & -> & -> & ->). eexists; split; reflexivity.
+        unfold list_case in *.
+        assert (Hb : exists la' lb', bcast la lb = Some (la', lb') /\ length la' = length lb' /\
+                     (if f_list_zip fl then list_pairs fl e la lb else match bcast la lb with None => Err EValue | Some (x, y) => list_pairs fl e x y end) = list_pairs fl e la' lb').
+        { destruct (f_list_zip fl) eqn:Ez.
+          - destruct Hsl as [Hz|Hlen]; [discriminate|]. exists la, lb. rewrite (bcast_same la lb Hlen). auto.
+          - destruct (bcast la lb) as [[la' lb']|] eqn:Eb; [|exfalso; eapply Hok; reflexivity].
+            exists la', lb'. split; [reflexivity|]. split; [eapply bcast_len; eauto|reflexivity]. }
+        destruct Hb as (la' & lb' & Eb & Hlen & Ecase). rewrite Ecase in *. rewrite Eb.
+        destruct (list_pairs_spec fl e la' lb' Hwf Hd Hlen Hok) as (rs & cs & -> & -> & ->). eexists; split; reflexivity.
 Qed.
 
 (* ===== getitem_total: on the repaired tree (or on square operators for the row forms) every index expression that numpy
    accepts on the represented matrix is accepted ===== *)
 Theorem getitem_total fl (e : op) q s : wf e = true -> sym_ok fl e -> listed q = true ->
-  f_list_dotA fl = false -> f_arr_cpu fl = false -> f_list_empty_err fl = false ->
+  f_list_dotA fl = false -> f_arr_cpu fl = false -> f_list_empty_err fl = false -> (f_list_zip fl = false \/ same_len q) ->
   (f_row_len_cols fl = false \/ fst (shape e) = snd (shape e)) ->
   spec_index (den e) (fst (shape e)) (snd (shape e)) q = Some s ->
   forall er, getitem fl e q <> Err er.
 Proof.
-  intros Hwf Hsym Hl HdotA Hcpu Hemp Hsq Hs.
+  intros Hwf Hsym Hl HdotA Hcpu Hemp Hzip Hsq Hs.
   assert (Hax : forall a n l, is_sa a = true -> spec_axis a n = Some (AIdx l) -> axis_sel a n = inr l).
   { intros a n l Ha. destruct a as [z|sl|z|z]; try discriminate Ha; cbn [spec_axis axis_sel];
     match goal with |- context [match ?x with _ => _ end] => destruct x; cbn [option_map]; [|discriminate] end; intros H; injection H as <-; reflexivity. }
@@ -256,10 +281,12 @@ Proof.
     + destruct a as [i|sa|la|la]; [| | |discriminate Hl]; cbn [getitem spec_index is_sa andb] in *; [eapply Hrow|eapply Hsl2|eapply Hsl2]; eauto.
     + destruct a as [i|sa|la|la]; [| | |discriminate Hl]; cbn [getitem spec_index is_sa andb] in *; [eapply Hrow|eapply Hsl2|eapply Hsl2]; eauto.
     + destruct a as [i|sa|la|la]; [|discriminate Hl|discriminate Hl|]; cbn [getitem spec_index] in *; [eapply Hrow; eauto|].
-      destruct (Nat.eqb (length la) (length lb)); [|discriminate].
-      destruct (norms la (fst (shape e))) as [rs|] eqn:E1; [|discriminate]. destruct (norms lb (snd (shape e))) as [cs|] eqn:E2; [|discriminate].
-      unfold list_case, list_target. rewrite HdotA, Hemp. intros er.
-      destruct (list_go_total e la lb rs cs Hwf E1 E2) as (r & Hr). rewrite Hr. destruct la, lb; discriminate.
+      destruct (bcast la lb) as [[la' lb']|] eqn:Eb; [|discriminate].
+      destruct (norms la' (fst (shape e))) as [rs|] eqn:E1; [|discriminate]. destruct (norms lb' (snd (shape e))) as [cs|] eqn:E2; [|discriminate].
+      unfold list_case. destruct (f_list_zip fl) eqn:Ez.
+      * destruct Hzip as [Hz|Hlen]; [discriminate|]. cbn [same_len] in Hlen. rewrite (bcast_same la lb Hlen) in Eb. injection Eb as <- <-.
+        eapply list_pairs_total; eauto.
+      * rewrite Eb. eapply list_pairs_total; eauto.
 Qed.
 
 (* ===== the sub-operator returned for slices acts as the selected sub-matrix ===== *)
